@@ -31,8 +31,9 @@ def classify(name, direction, m, frame, what):
         return 'fifo-response-count'
     if direction == 'resp' and t == 'readFileRecord':
         return 'read-file-record-response-layout'
-    if direction == 'req' and t == 'diag' and m['message']['k'] != 'int':
-        return 'diag-request-multiword'
+    if direction == 'req' and t == 'diag' and m['message']['k'] != 'int' and \
+            not (m['message']['k'] == 'list' and len(m['message']['ws']) == 1):
+        return 'diag-request-multiword'       # only a request whose data is not exactly one word
     if name == 'rtu' and direction == 'resp' and t == 'diag' and what == 'recv':
         words = 1 if m['message']['k'] == 'int' else len(m['message'].get('ws', []))
         if words != 1:
